@@ -264,7 +264,10 @@ def _difference_sides(core, row) -> list:
 
     out = []
     for x, zero, rel in ((core[2], core[3], core[1]), (core[3], core[2], _MIRROR[core[1]])):
-        if not (zero[0] == "const" and isinstance(zero[1], (int, float)) and not isinstance(zero[1], bool) and zero[1] == 0):
+        # 0, or a small positive tolerance: a constant <= 1e-5 or 10 ** (-<PRECISION constant>)
+        is_zero = zero[0] == "const" and isinstance(zero[1], (int, float)) and not isinstance(zero[1], bool) and 0 <= zero[1] <= 1e-5
+        is_tol = zero[0] == "bin" and zero[1] == "Pow" and zero[2] == ("const", 10) and any(t[0] == "name" and t[1].endswith("PRECISION") for t in sym.subterms(zero[3])) and any(t == ("const", -1) or (t[0] == "const" and isinstance(t[1], (int, float)) and t[1] < 0) for t in sym.subterms(zero[3]))
+        if not (is_zero or is_tol):
             continue
         while x[0] == "obj":
             x = x[2]
